@@ -514,6 +514,32 @@ pub fn conv_lattice(full: bool) -> Vec<Cfg> {
     out
 }
 
+/// Beyond the lattice: strides 4 and 6 against dilations 2, 3, 4 (stride and dilation sharing a factor without one
+/// dividing the other, coprime pairs, multiples) along one axis with a 3-wide kernel; one-channel, one-row inputs just long
+/// enough for three output cells.
+pub fn extended_lattice() -> Vec<Cfg> {
+    let mut out = Vec::new();
+    for &s in &[4usize, 6, 5] {
+        for &d in &[2usize, 3, 4] {
+            for axis in 0..2 {
+                for &p in &[0usize, 1] {
+                    let eff = d * 2 + 1;
+                    let len = eff + 2 * s - 2 * p.min(1);
+                    let c = if axis == 0 {
+                        Cfg { ic: 1, ih: len, iw: 1, f: 1, k: (3, 1), s: (s, 1), p: (p, 0), d: (d, 1) }
+                    } else {
+                        Cfg { ic: 1, ih: 1, iw: len, f: 1, k: (1, 3), s: (1, s), p: (0, p), d: (1, d) }
+                    };
+                    if c.conv_out().is_some() {
+                        out.push(c);
+                    }
+                }
+            }
+        }
+    }
+    out
+}
+
 /// Seeded subset of `n` configurations that contains a representative of every class.
 pub fn pick(cfgs: Vec<Cfg>, n: usize, seed: u64, size_cap: usize, size_of: &dyn Fn(&Cfg) -> usize) -> Vec<Cfg> {
     let mut cands: Vec<(u64, Cfg)> = cfgs
